@@ -42,7 +42,10 @@ def arm_of(prog, p, enum, argname):
     for c in p.conds:
         if c[0] == "switch" and c[2][0] == "eq" and isinstance(c[1], tuple) and c[1][0] == "discr":
             inner = strip_transparent(c[1][1])
-            if isinstance(inner, tuple) and inner[0] == "arg" and inner[2] == argname:
+            # `let x = arg?; match x {..}`: the scrutinee is branch(arg).0
+            if isinstance(inner, tuple) and inner[0] == "field" and inner[2] == 0 and isinstance(inner[1], tuple) and inner[1][0] in ("call", "pure") and inner[1][1].endswith("Try>::branch") and inner[1][2]:
+                inner = strip_transparent(inner[1][2][0])
+            if isinstance(inner, tuple) and inner[0] == "arg" and inner[2] in (argname, argname + "_maybe"):
                 for n, d in vs or []:
                     if d == c[2][1]:
                         return n
